@@ -145,7 +145,9 @@ func buildC17(tier string, seed int64) *Family {
 	}
 	// malformed qualified names
 	for _, t := range []string{"N1 :", ": N1", "N1 : N2 : N3", "N1 : w1 N2", "N1 / N2 :", "N1 [ N2 : ]", "@ N1 :", "N1 : : N2", "N1 :: : N2", "count ( N1 : )",
-		"N1 w1 : N2", "N1 w1 : *", "// N1 w1 : N2", "N1 / N2 w1 : N3", "N1 [ @ N2 w1 : N3 = S1 ]", "count ( // N1 w1 : N2 ) > D1", "N1 w1 : w2 N2", "@ N1 w1 : N2"} {
+		"N1 w1 : N2", "N1 w1 : *", "// N1 w1 : N2", "N1 / N2 w1 : N3", "N1 [ @ N2 w1 : N3 = S1 ]", "count ( // N1 w1 : N2 ) > D1", "N1 w1 : w2 N2", "@ N1 w1 : N2",
+		// the local part is not an NCName: it starts with a digit, '-' or '.'
+		"N1 : D1", "N1 : D1 N2", "N1 : - N2", "N1 : . N2", "N1 : D1 N2 / N3", "// N1 : D1", "N1 [ N2 : D1 ]", "@ N1 : D1", "count ( N1 : - N2 )", "N1 / N2 : . N3", "N1 : D1 : N2"} {
 		insts = append(insts, rejectInst(t, "malformed-qname"))
 	}
 	insts = dedupInst(insts)
